@@ -66,6 +66,18 @@ Theorem C04_ensure_right : forall s chk, (1 <= site_num s)%Z ->
 Proof. exact ensure_right_spec. Qed.
 Print Assumptions C04_ensure_right.
 
+(* the numerical guards of ensure_*: check_right_canonical demands check_rortho of EVERY site except the centre 0
+   (the centre ensure_right_canonical pairs it with), check_left_canonical check_lortho of every site except the
+   last -- so "returned untouched" implies every non-centre site passed its one-site isometry test *)
+Theorem C04_check_right_covers : forall s i,
+  In i (check_right_sites s) <-> ((0 <= i <= site_num s - 1)%Z /\ i <> 0%Z).
+Proof. exact check_right_covers. Qed.
+Print Assumptions C04_check_right_covers.
+Theorem C04_check_left_covers : forall s i,
+  In i (check_left_sites s) <-> ((0 <= i <= site_num s - 1)%Z /\ i <> (site_num s - 1)%Z).
+Proof. exact check_left_covers. Qed.
+Print Assumptions C04_check_left_covers.
+
 (* ------------------------------------------------------------------------------------------------ *)
 (* one push step and the sweep                                                                      *)
 (* ------------------------------------------------------------------------------------------------ *)
